@@ -6,6 +6,27 @@ from amaranth_soc.memory import MemoryMap
 from .elab import convert, descriptive
 
 
+def balancing_size(ranges, ov):
+    """smallest power-of-two shadow size for which no chunk offset is used by more than ov+1 of the
+    registers `ranges` (the documented decoding: low bits from the address, higher bits from the
+    register start); None if there is none. Sizes beyond all address bits change nothing."""
+    if not ranges:
+        return 1
+    size = max(1 << max(0, (e - s - 1).bit_length()) for s, e in ranges)
+    top = 1 << (max(e for s, e in ranges)).bit_length()
+    while size <= 2 * top:
+        use = {}
+        for s, e in ranges:
+            rsz = 1 << max(0, (e - s - 1).bit_length())
+            for a in range(s, e):
+                off = (s & (size - 1) & ~(rsz - 1)) | (a & (rsz - 1))
+                use.setdefault(off, set()).add((s, e))
+        if all(len(v) <= ov + 1 for v in use.values()):
+            return size
+        size *= 2
+    return None
+
+
 def gen_case(seed, idx):
     return {"seed": seed, "idx": idx}
 
@@ -48,6 +69,15 @@ def run_impl(case):
         if descriptive(e) and isinstance(e, ValueError):
             obs = "shadow refused"
             stats["refused"] = 1
+            # independent of the model: the refusal is only right if, for the read side or the write side, NO
+            # power-of-two shadow size keeps every chunk within the sharing limit
+            if ov is not None:
+                sides = [[(s_, e_) for s_, e_, r_ in layout if r_.element.access.readable()],
+                         [(s_, e_) for s_, e_, r_ in layout if r_.element.access.writable()]]
+                fit = [balancing_size(side, ov) for side in sides]
+                if all(f is not None for f in fit):
+                    fails.append(("C19", f"Multiplexer layout {[(s_, e_) for s_, e_, _ in layout]} shadow_overlaps={ov} is refused although "
+                                         f"shadow sizes {fit} (read, write) keep every chunk within the limit", 0))
             # the refusal must be repeatable: the same instance, elaborated again, is refused the same way
             try:
                 convert(mux, regs)
